@@ -73,8 +73,26 @@ func GetCPUPlans(resourceInfo *types.NodeResourceInfo, originCPUMap types.CPUMap
 		numaCPUMap[numaNodeID][cpuID] = availableResource.CPUMap[cpuID]
 	}
 
-	// get cpu plan for each numa node
+	// get cpu plan for each numa node, in a fixed order: NUMA nodes that hold the
+	// origin cores come first, so that a realloc keeps its NUMA node (affinity)
+	numaNodeIDs := []string{}
+	originCores := map[string]int{}
 	for numaNodeID, cpuMap := range numaCPUMap {
+		numaNodeIDs = append(numaNodeIDs, numaNodeID)
+		for cpuID := range cpuMap {
+			if _, ok := originCPUMap[cpuID]; ok {
+				originCores[numaNodeID]++
+			}
+		}
+	}
+	sort.Slice(numaNodeIDs, func(i, j int) bool {
+		if originCores[numaNodeIDs[i]] != originCores[numaNodeIDs[j]] {
+			return originCores[numaNodeIDs[i]] > originCores[numaNodeIDs[j]]
+		}
+		return numaNodeIDs[i] < numaNodeIDs[j]
+	})
+	for _, numaNodeID := range numaNodeIDs {
+		cpuMap := numaCPUMap[numaNodeID]
 		// a NUMA node cannot hand out more memory than the node as a whole still has
 		numaMemory := utils.Min(availableResource.NUMAMemory[numaNodeID], availableResource.Memory)
 		numaCPUPlans := doGetCPUPlans(originCPUMap, cpuMap, numaMemory, shareBase, maxFragmentCores, req.CPURequest, req.MemRequest)
